@@ -213,7 +213,7 @@ func (x *Exec) applyContract(fr *Frame, st *State, fn *ssa.Function, ct *Contrac
 		env := x.newEnv(fr, st, st, vars, fn)
 		g := env.evalBool(rq.Expr)
 		if env.err != nil {
-			x.vc.note("requires of %s not evaluable at call: %v", key, env.err)
+			x.specErrors = append(x.specErrors, fmt.Sprintf("requires of %s not evaluable at call site in %s: %v", key, fr.fn.Name(), env.err))
 			continue
 		}
 		reqs = append(reqs, g)
@@ -242,11 +242,17 @@ func (x *Exec) applyContract(fr *Frame, st *State, fn *ssa.Function, ct *Contrac
 		res = append(res, x.fresh(rs.At(i).Type(), fn.Name()+"."+name))
 	}
 	x.bindResults(fn, res, vars)
+	// the callee's own call counters are not visible to the caller: unconstrained values
+	for _, tc := range ct.Tracks {
+		if _, clash := vars[tc.Name]; !clash {
+			vars[tc.Name] = TV{VTerm{x.vc.Fresh("callee."+tc.Name, SInt)}, types.Typ[types.Int]}
+		}
+	}
 	for _, en := range ct.Ensures {
 		env := x.newEnv(fr, st, old, vars, fn)
 		g := env.evalBool(en.Expr)
 		if env.err != nil {
-			x.vc.note("ensures of %s not evaluable at call: %v", key, env.err)
+			x.specErrors = append(x.specErrors, fmt.Sprintf("ensures of %s not evaluable at call site in %s: %v", key, fr.fn.Name(), env.err))
 			continue
 		}
 		x.assume(st, g)
